@@ -725,6 +725,79 @@ def main(a0, a1):
             k = 2
     return acc
 ''', ['R', 'R']),
+    ('tuple-carried-loop', '''
+@fp.fpy
+def main(a0, a1):
+    with fp.FP64:
+        a = {lit}
+        s = 0.0
+        c = 1.0
+        for i in range({n} + 1):
+            (a, b) = (a + 1.0, {lit2})
+            s = s {op} a * b
+            t = (2.0, c {op2} a1)
+            d, c = t
+            s = s + c * d
+        k = 2
+        w = {lit}
+        while k > 0:
+            (w, k) = (w * 2 + 1, k - 1)
+            a1 = a1 {op} w
+    return (s, a, c, w, a1)
+''', ['R', 'R']),
+    ('tuple-argmax', '''
+@fp.fpy
+def hp(p0, p1):
+    return (p0, p1)
+
+@fp.fpy
+def main(a0, a1):
+    with fp.FP64:
+        best = -1.0
+        idx = -1.0
+        for i, x in enumerate(a0):
+            if x > best:
+                (best, idx) = (x, i)
+        lo = 1e3
+        at = -1
+        n = 0
+        for i, x in enumerate(a0):
+            if x < lo:
+                lo, at = hp(x, i)
+            else:
+                (n, _) = (n + 1, x)
+        m = a1
+        j = 0
+        for x in a0:
+            if x {op} a1 >= m:
+                t = (x {op} a1, j + 1)
+                (m, _) = t
+                (_, j) = t
+    return (idx, at, n, j, best {op2} lo, m)
+''', ['L2', 'R']),
+    ('tuple-nested-if', '''
+@fp.fpy
+def main(a0, a1):
+    with fp.FP64:
+        a = 0.0
+        b = 0.0
+        if a0 > {lit}:
+            if a1 > {lit2}:
+                (a, b) = (a0 + a1, a0 - a1)
+        c = {lit}
+        d = {lit2}
+        if a0 == a0:
+            if a1 <= a1:
+                (c, d) = (d, c {op} a0)
+            else:
+                (c, _) = (a1, d)
+        e = 1.0
+        for i in range({n} + 1):
+            if a0 {op2} i > a1:
+                for j in range(2):
+                    (e, f) = (e * 2, j)
+    return (a, b, c, d, e)
+''', ['R', 'R']),
     ('dead-stores', '''
 @fp.fpy
 def h0(p0):
